@@ -7,8 +7,25 @@ from . import dataset as D
 from . import merge_common as M
 
 
-def _hash_dir(d):
-    return {p.name: hashlib.sha256(p.read_bytes()).hexdigest() for p in sorted(Path(d).iterdir()) if p.is_file()}
+def _hash_dir(d, skip=None):
+    """Listing of a directory: its files with their digests AND, recursively, its sub-directories (`sub/` -> 'dir') with
+    their files (`sub/name`), so that anything created below the source counts as an addition. `skip`: the conversion's
+    own target directory when it lies inside the source (`src/alf`): the target is an argument of the call, not an
+    addition to the source the statement speaks of - everything else below the source is listed."""
+    d = Path(d)
+    out = {}
+
+    def walk(q, prefix):
+        for p in sorted(q.iterdir()):
+            if skip is not None and p.resolve() == Path(skip).resolve():
+                continue
+            if p.is_dir() and not p.is_symlink():
+                out[prefix + p.name + '/'] = 'dir'
+                walk(p, prefix + p.name + '/')
+            elif p.is_file():
+                out[prefix + p.name] = hashlib.sha256(p.read_bytes()).hexdigest()
+    walk(d, '')
+    return out
 
 
 def _npy(path):
@@ -80,7 +97,8 @@ def run_export(case):
             if m.sparse_features is not None:
                 dep = m.get_depths()
                 res['src_model']['depths'] = None if dep is None else [None if np.isnan(x) else float(x) for x in dep]
-            out = d / 'alf'
+            # the target directory: beside the source, or INSIDE it (src/alf, the usual layout of a session folder)
+            out = (src / 'alf') if case.get('out_inside') else (d / 'alf')
             # the source directory under several spellings: canonical, through '..', through a symlink
             link = d / 'link_to_src'
             link.symlink_to(src, target_is_directory=True)
@@ -118,7 +136,9 @@ def run_export(case):
                 m2.close()
         finally:
             m.close()
-        after = _hash_dir(src)
+        after = _hash_dir(src, skip=out)
+        # (not through _hash_dir: prop_c13 records the calls of _hash_dir as the listings of the SOURCE directory)
+        res['out_hashes'] = {p.name: hashlib.sha256(p.read_bytes()).hexdigest() for p in sorted(out.iterdir()) if p.is_file()}
         res['src_changed'] = sorted(k for k in set(before) | set(after) if before.get(k) != after.get(k))
         res['files'] = sorted(p.name for p in out.iterdir())
         arrays = {}
